@@ -21,6 +21,7 @@ import Rooc.Proofs.LinDExamples2
 import Rooc.Proofs.ComposeWF
 import Rooc.Proofs.ComposeSolver
 import Rooc.Proofs.ComposeSolverExamples
+import Rooc.Proofs.ComposeReturn
 namespace Rooc.Props.C03
 open Rooc Rooc.Sem Rooc.Ref Rooc.Exp
 
@@ -162,6 +163,18 @@ theorem refSolve_optimal_spec {m : Model (Ext K)} {v : K} {w : List (String × K
     intro hc ρ hf v' hv'
     obtain ⟨a, hmem', _, hobj⟩ := feasible_has_representative ha hc hf
     exact hbest (v', a) (mem_valList.2 ⟨hmem', by rw [hobj, hv']⟩)
+
+/-- when the reference answers `optimal`, the objective is DEFINED at every assignment that satisfies the model (otherwise
+the verdict would have been `undefinedObjective`). -/
+theorem refSolve_optimal_objective_defined {m : Model (Ext K)} {v : K} {w : List (String × K)}
+    (h : refSolve m = .optimal v w) (hc : Closed m = true) {ρ : String → K} (hf : srcFeasible m ρ = true) :
+    (eval ρ m.objective).isSome = true := by
+  have hout := refSolve_outcome m
+  rw [h] at hout
+  cases hout with
+  | optimal asg _ _ ha _ _ hall _ =>
+    obtain ⟨a, hmem, _, hobj⟩ := feasible_has_representative ha hc hf
+    rw [← hobj]; exact hall a hmem
 
 /-- the same in order notation: a reported minimum is `≤`, a reported maximum `≥`, the objective of every
 assignment that satisfies the model. -/
@@ -870,6 +883,111 @@ example (t : ℚ) (ht : 0 ≤ t) :
   have : v = 0 := by simpa [solBool] using hval.symm
   subst this
   exact ⟨hone, hs, w, hr⟩
+
+/-- **the same, stated on the DIFFED model of `RoocSolver::solve_using(auto_solver)`** (`Pipeline.solveUsingAuto`,
+`Rooc/Pipeline.lean`: `Linearizer::linearize` with `map_err(Linearization)`, `auto_solver` with `map_err(Solver)`; compared
+arm by arm and `LpSolution` by `LpSolution` with the real entry point on every run of `./check C03`).  Under the assumption
+`SolverSpec` about microlp for the model the pipeline compiles: `Ok(sol)` labelled Optimal ⇒ `sol` satisfies the source and
+carries the reference's optimum; `Err(Solver(Infeasible))` ⇒ the reference says `infeasible` and no assignment satisfies the
+source. -/
+theorem c03_solve_using_logic_partial {solver : LinModel (Ext K) → MlpOutcome (Ext K)}
+    {m : Model (Ext K)} {t : K} (ht : 0 ≤ t) {maxSteps : Nat}
+    (hm : LogicModel m m.domain) (hsh : AssertShape m) (hok : DeclOK m.domain)
+    (ht1 : t < 1 ∨ NoIntegerVars m.domain)
+    {asg : List (List (String × K))} (ha : assignments m.domain = some asg)
+    (hspec : ∀ lm, Compile.linearize m (.fin t) maxSteps = .ok lm → SolverSpec lm (solver lm)) :
+    (∀ lm sol, Pipeline.solveUsingAuto m (.fin t) maxSteps solver = .solved lm sol → sol.status = .optimal →
+      srcFeasible m (assignmentOf sol) = true ∧
+      (m.optType ≠ .satisfy → ∃ v w, refSolve m = .optimal v w ∧ sol.value = .fin v) ∧
+      (m.optType = .satisfy → ∃ w, refSolve m = .feasibleAny w)) ∧
+    (Pipeline.solveUsingAuto m (.fin t) maxSteps solver = .solver "Infeasible" →
+      refSolve m = .infeasible ∧ ∀ ρ : String → K, srcFeasible m ρ = false) := by
+  refine ⟨fun lm sol hp hst => ?_, fun hp => ?_⟩
+  · obtain ⟨hc, hone⟩ := pipeline_solved hp
+    exact (c03_default_solver_logic_partial ht hc hm hsh hok ht1 ha (hspec lm hc)).1 sol hone hst
+  · obtain ⟨lm, hc, hone⟩ := pipeline_solver hp
+    exact (c03_default_solver_logic_partial ht hc hm hsh hok ht1 ha (hspec lm hc)).2 hone
+
+/-! ### any answer honouring the contract, judged against the SOURCE semantics (no enumerability needed), and the
+fully proved instance: `Compile.linearize` ∘ `to_standard_form` ∘ `into_tableau` ∘ step loop ∘ `as_lp_solution` -/
+
+/-- **a returned `LpSolution`, read by variable name, is a source optimum.**  `res` is whatever a solver path hands back
+for the compiled `lm`, `AnswerSpec lm res` the contract on it (assumption for microlp / Clarabel, theorem for rooc's
+simplex).  Then a solution labelled `Optimal` — its assignment by NAME, the compiler's auxiliaries simply being extra
+names — satisfies the source model, its reported value IS the source objective there, no satisfying assignment is
+strictly better; and `Infeasible` means that no assignment satisfies the source. -/
+theorem c03_answer_src_logic_partial {m : Model (Ext K)} {t : K} (ht : 0 ≤ t) {maxSteps : Nat} {lm : LinModel (Ext K)}
+    (h : Compile.linearize m (.fin t) maxSteps = .ok lm)
+    (hm : LogicModel m m.domain) (hsh : AssertShape m) (hok : DeclOK m.domain)
+    (ht1 : t < 1 ∨ NoIntegerVars m.domain) {res : Res (Ext K)} (hspec : AnswerSpec lm res) :
+    (∀ sol, res = .ok sol → sol.status = .optimal →
+      srcFeasible m (assignmentOf sol) = true ∧
+      ∃ v, sol.value = .fin v ∧ eval (assignmentOf sol) m.objective = some v ∧
+        ∀ ρ : String → K, srcFeasible m ρ = true → ∀ u, eval ρ m.objective = some u → better m.optType u v = false) ∧
+    (res = .err "Infeasible" → ∀ ρ : String → K, srcFeasible m ρ = false) := by
+  refine ⟨fun sol hsol hst => ?_, fun herr =>
+    (c03_compile_infeasible_logic_partial ht h hm hsh hok ht1).mp (hspec.infeasible herr)⟩
+  obtain ⟨ho, w, hw, hobj⟩ := hspec.optimal sol hsol hst
+  obtain ⟨hs', he, _, hbest⟩ := c03_compile_optimal_logic_partial ht h hm hsh hok ht1 ho
+  rw [hobj] at he
+  exact ⟨hs', w, hw, he, fun ρ hρ u hu => hbest ρ hρ u w hu he⟩
+
+/-- **the fully proved instance — rooc's own simplex path, end to end, in terms of the returned `LpSolution`.**
+Source model under the contract, compiled by the whole pipeline; `to_standard_form` succeeds on the result; `into_tableau`
+(tolerance `tol > 0`, either start) returns a tableau under the decidable `StartFacts`; the step loop at exact comparisons
+stops `Finished`.  Then the `LpSolution` handed back (`as_lp_solution` on `variables_values`, value `optimal_value`), read
+by variable name, satisfies the SOURCE model, reports the source objective at that assignment, and nothing satisfying the
+source is strictly better.  No assumption about a solver is left; what is left about computed data is decidable:
+`DomainFormat lm` (see `ComposeWF.lean`), `plainName` for the variables of `lm` (the known prefix-collision finding of
+`as_lp_solution`), `StartFacts`. -/
+theorem c03_slow_simplex_returned_solution_partial {m : Model (Ext K)} {t : K} (ht : 0 ≤ t) {maxSteps : Nat}
+    {lm : LinModel (Ext K)} (h : Compile.linearize m (.fin t) maxSteps = .ok lm)
+    (hm : LogicModel m m.domain) (hsh : AssertShape m) (hok : DeclOK m.domain)
+    (ht1 : t < 1 ∨ NoIntegerVars m.domain)
+    {s : StdModel (Ext K)} (hs : Standardize.standardize lm = .ok s) (hfmt : ComposeWF.DomainFormat lm)
+    (hpl : ∀ v ∈ lm.vars, ComposeNames.plain v = true)
+    {tol : K} (htol : 0 < tol) (stallExtra phase1Limit : Nat)
+    (hfacts : ComposeSimplex.StartFacts tol stallExtra phase1Limit (ComposeSimplex.stdK s))
+    {T : Tab K} (hT : @Tableau.intoTableau K (exactArith K) tol stallExtra phase1Limit (ComposeSimplex.stdK s) = .ok T)
+    (limit : Nat) (prefer : List Nat)
+    (hfin : (@Tableau.solve K (exactArith K) 0 stallExtra limit prefer T).result = .ok ()) :
+    srcFeasible m (assignmentOf (ComposeSimplex.returnedSolution s
+      (@Tableau.solve K (exactArith K) 0 stallExtra limit prefer T).final)) = true ∧
+    ∃ v, (ComposeSimplex.returnedSolution s (@Tableau.solve K (exactArith K) 0 stallExtra limit prefer T).final).value
+        = .fin v ∧
+      eval (assignmentOf (ComposeSimplex.returnedSolution s
+        (@Tableau.solve K (exactArith K) 0 stallExtra limit prefer T).final)) m.objective = some v ∧
+      ∀ ρ : String → K, srcFeasible m ρ = true → ∀ u, eval ρ m.objective = some u → better m.optType u v = false := by
+  obtain ⟨hW, hnn, hdv, hnd⟩ := ComposeWF.compiled_wf h hok.nodup (ComposeWF.finiteLits_of_logicModel hm) hs hfmt
+  have hc := ComposeSimplex.intoTableau_canonicalFor htol hW hs stallExtra phase1Limit hfacts hT
+  have hspec := ComposeReturn.simplex_answerSpec hW hnn hdv hnd hpl hs hc stallExtra limit prefer hfin
+  exact (c03_answer_src_logic_partial ht h hm hsh hok ht1 hspec).1 _ rfl rfl
+
+open Rooc.ComposeSem Rooc.ComposeSimplex in
+/-- non-vacuity (`K = ℚ`, every tolerance `t ≥ 0` of the bound inference, step limit 0; simplex tolerance `1e-5` for the
+start): `max x s.t. c: x ≤ 2`, `x` NonNegativeReal.  EVERY hypothesis of `c03_slow_simplex_returned_solution_partial` is
+established — compile (symbolic run), standard form (kernel), `DomainFormat`, plain names, `StartFacts`, the tableau
+`into_tableau` returns (evaluated), the loop's verdict (evaluated) — and the theorem says: the returned `LpSolution` read
+by name satisfies the source and reports a value `v` that no satisfying assignment exceeds. -/
+example (t : ℚ) (ht : 0 ≤ t) :
+    srcFeasible exSrc (assignmentOf (ComposeSimplex.returnedSolution exMaxStd exTM')) = true ∧
+    ∃ v, (ComposeSimplex.returnedSolution exMaxStd exTM').value = .fin v ∧
+      ∀ ρ : String → ℚ, srcFeasible exSrc ρ = true → ∀ u, eval ρ exSrc.objective = some u → u ≤ v := by
+  have hfmt : ComposeWF.DomainFormat exMax := by
+    refine ⟨?_, ?_, exMax_nnok⟩ <;> intro d hd lo hi hty <;>
+      simp only [exMax, List.mem_singleton] at hd <;> subst hd <;> simp at hty
+    obtain ⟨rfl, rfl⟩ := hty
+    simp [StdSem.isFin]
+  have hpl : ∀ v ∈ exMax.vars, ComposeNames.plain v = true := by
+    intro v hv; simp only [exMax, List.mem_singleton] at hv; subst hv; decide
+  have h := c03_slow_simplex_returned_solution_partial ht (exSrc_compile (.fin t)) (LogicModel.ofFragModel exSrc_frag)
+    (assertShape_of_fragModel exSrc_frag) exSrc_declOK (Or.inr exSrc_noInt) exMax_std hfmt hpl
+    (tol := (1/100000 : ℚ)) (by norm_num) 1 10 exMax_startFacts exMax_intoTableau 10 [] exTM'_solve.1
+  rw [exTM'_solve.2] at h
+  obtain ⟨hs, v, hv, _, hbest⟩ := h
+  refine ⟨hs, v, hv, fun ρ hρ u hu => ?_⟩
+  have := hbest ρ hρ u hu
+  simpa [exSrc, better_max] using this
 
 end DefaultSolver
 end Composition
